@@ -49,7 +49,7 @@ impl Property for C08 {
         "families: 2D and 3D rotation-centred parameter objects built from an initial isometry (3D: Euler triples incl. pitch exactly +-pi/2 and +-pi/2 +- 1e-12..1e-2) and a rotation centre up to 1e3 from the origin, followed by a parameter update x (rotations up to +-pi, translations up to 1e3), a test point and a reference surface point on whose normal line the test point lies at signed offset d (the documented precondition of the plane Jacobians), every parameter index; multi-body handlers with 2-5 bodies, any static index, optional initial isometries. Oracle: round trips, inverse/centre consistency, pure-translation law, central finite differences (h = 1e-6(1+|x_k|)) of the residual each Jacobian differentiates, finite differences of Rx*Ry*Rz. Non-trivial: rotation centre farther than 10 from the origin and a rotation that is not axis-aligned. Distinct = distinct canonical JSON."
     }
     fn cases(t: Tier) -> u32 {
-        t.pick(600_000, 20_000_000)
+        t.pick(3_000_000, 20_000_000)
     }
     fn expected_labels() -> Vec<&'static str> {
         vec!["rc2", "rc3", "handler", "gimbal_exact", "gimbal_near", "large_rc", "handler_initial", "handler_identity"]
@@ -176,7 +176,14 @@ fn rc3(e: &Euler, t: &P3, rc: &P3, x: &[f64; 6], p: &P3, n: &P3, d: f64, v: &P3)
     let rm = RotationMatrices::from_rotation(&t0.rotation);
     ensure!(rot_diff(&rm.q, &t0.rotation) <= rtol0, "C08/rotations/from_rotation_round_trip", "from_rotation(q).q differs from q by {:e} (pitch {:e}, tolerance {rtol0:e})", rot_diff(&rm.q, &t0.rotation), e.ry);
     let back = iso3_from_param(&param_from_iso3(&t0));
-    ensure!(rot_diff(&back.rotation, &t0.rotation) <= rtol0.max(1e-7) && (back.translation.vector - t0.translation.vector).norm() <= 1e-9 * mag, "C08/iso3_param_round_trip", "iso3_from_param(param_from_iso3(T)) differs from T by {:e} (pitch {:e})", rot_diff(&back.rotation, &t0.rotation), e.ry);
+    // isometry -> six parameters -> isometry is the identity at every pose, gimbal lock included: the rotation a set of
+    // angles denotes is unique even where the angles are not
+    ensure!(rot_diff(&back.rotation, &t0.rotation) <= 1e-12 && (back.translation.vector - t0.translation.vector).norm() <= 1e-12 * mag, "C08/iso3_param_round_trip", "iso3_from_param(param_from_iso3(T)) differs from T by {:e} (pitch {:e})", rot_diff(&back.rotation, &t0.rotation), e.ry);
+    // the six parameters are z-y-x angles, the generated pose is composed x-y-z: its inverse is a z-y-x composition with
+    // pitch -ry, so the constructed gimbal poses are gimbal poses of the parameter convention for the inverse
+    let t0i = t0.inverse();
+    let backi = iso3_from_param(&param_from_iso3(&t0i));
+    ensure!(rot_diff(&backi.rotation, &t0i.rotation) <= 1e-12 && (backi.translation.vector - t0i.translation.vector).norm() <= 1e-12 * (mag + t0i.translation.vector.norm()), "C08/iso3_param_round_trip/zyx", "iso3_from_param(param_from_iso3(T)) differs from T by {:e} for the z-y-x pose with pitch {:e}", rot_diff(&backi.rotation, &t0i.rotation), -e.ry);
     // (a) from_initial reproduces the isometry
     let mut params = RcParams3::from_initial(&t0, &rcp);
     let tr0 = *params.transform();
